@@ -292,6 +292,12 @@ func runC08(c *sim.Ctx) {
 			}
 		}
 		for hi, h := range st.handles {
+			// a handle may sit idle over one or more commits (also right after it was
+			// opened: its first read then meets a state it has never seen)
+			if s.Chance(1, 4, "idle") {
+				c.Probe("handle-idle-over-a-commit")
+				continue
+			}
 			c08Read(c, w, st, hi, h, false)
 			if s.Chance(1, 3, "repeat") {
 				c08Read(c, w, st, hi, h, true) // no intervening write: cache-hit path must be identical
